@@ -738,7 +738,13 @@ fn depth_script(rng: &mut Rng, thorough: bool, allow_bare_go: bool) -> Vec<Strin
         let bare = allow_bare_go && k == 0 && rng.chance(1, 3);
         let mut men = 32;
         if !bare {
-            if rng.chance(1, 2) {
+            if rng.chance(1, 4) {
+                // a game that shuffles pieces out and back: positions on record two or three times, so
+                // the repetition rule takes part in the searches that are compared
+                let g = crate::props::position::repeat_game(rng);
+                men = g.current().piece_count();
+                s.push(g.command(None));
+            } else if rng.chance(1, 2) {
                 let m = rng.range(0, 30) as usize;
                 let (ps, ms) = gen::playout(&Pos::start(), rng, m);
                 men = ps.last().unwrap().piece_count();
